@@ -33,7 +33,9 @@ CHECKS = {
         technique="conformant block target in TLA+ (TargetRules/Target.tla: finds the command by opcode, reads LBA/lengths "
                   "off the CDB with T10Cdb field positions, disk = LBA -> block) model-checked for read-your-writes through "
                   "the spec's own codec; random histories through the facade over both transports against a live target are "
-                  "replayed by TLC's target from the received CDBs (Trace_Target)",
+                  "replayed by TLC's target from the received CDBs (Trace_Target); behaviours of the "
+                  "composition Initiator.tla (I/O + injected CHECK CONDITION/BUSY + node replacement/removal + re-attach), "
+                  "exhaustive to 5 steps and by TLC -simulate to 24 steps, replayed step by step on the real facade",
         text="Every I/O event carries the caller's arguments and data, the CDB and data-out the binding received, what "
              "the target returned and what the caller sees; TLC checks target-recovers-arguments, write data reaches the "
              "target, reads return what was last written at the LBAs the caller named (LBAs around 0, 2^32, 2^64), "
